@@ -94,6 +94,15 @@ Definition read_aligned (E : env) (T : ty) (p : ptr) : outcome (list N) :=
 Definition transmute_copy (Dst : ty) (v : list N) : outcome (list N) :=
   if sz Dst <=? N.of_nat (List.length v) then Ret (firstn (N.to_nat (sz Dst)) v) else UB U_read_oob.
 
+(* size_of::<*const T>(): one word, two when T is unsized (slice length or vtable) *)
+Definition ptr_size (is_unsized : bool) : N := if is_unsized then 16 else 8.
+(* transmute!(p) of a raw pointer of [sw] bytes to a pointer type of [dw] bytes: a copy of the
+   pointer's words.  Equal sizes: the same pointer, metadata included.  A larger destination reads
+   past the source (UB); a smaller one keeps an unspecified part of it, which the model refuses to
+   give a meaning to (conservatively UB). *)
+Definition transmute_ptr_m {X : Type} (sw dw : N) (p : X) : outcome X :=
+  if sw =? dw then Ret p else if sw <? dw then UB U_read_oob else UB U_invalid_value.
+
 (* pod.iter().all(|x| valid(x)) over a slice of [T]-sized elements in memory *)
 Definition elems (E : env) (T : ty) (s : slice) : list (list N) :=
   map (fun i => read_bytes (mem E) (addr (sptr s) + N.of_nat i * sz T) (sz T))
